@@ -77,6 +77,13 @@ func Load(name string) (*Fixture, error) {
 	}
 	f := &Fixture{Name: name, Yang: y, Module: m, DSFile: filepath.Join(core.VerifDir, "spec", name+".json")}
 	f.DS = ExportSchema(m)
+	for i := range f.DS {
+		// type descriptors "as written" come from the fixture's own table, not from the
+		// compiled module (whose derivation is the subject of C02 / C05)
+		if td, ok := TypeDescs[name+":"+strings.Join(f.DS[i].SP, "/")]; ok {
+			f.DS[i].T = td
+		}
+	}
 	fxCache[name] = f
 	return f, nil
 }
@@ -121,7 +128,8 @@ func ExportSchema(m *meta.Module) abs.Schema {
 					walk(cs, sp, nc, chPath+x.Ident()+":"+cs.Ident()+":")
 				}
 			case *meta.Container, *meta.List, *meta.Leaf, *meta.LeafList:
-				n := abs.SNode{SP: append(append([]string{}, sp...), d.Ident()), Keys: []string{}, Dflt: []string{}, Cases: append([]abs.CaseRef{}, chain...), Enums: []abs.EnumDef{}, Bases: []string{}}
+				n := abs.SNode{SP: append(append([]string{}, sp...), d.Ident()), Keys: []string{}, Dflt: []string{}, Cases: append([]abs.CaseRef{}, chain...), Enums: []abs.EnumDef{}, Bases: []string{},
+					T: abs.TypeDesc{Levels: []abs.Level{}, Members: []abs.TypeMem{}}}
 				if n.Cases == nil {
 					n.Cases = []abs.CaseRef{}
 				}
@@ -176,7 +184,7 @@ func ExportSchema(m *meta.Module) abs.Schema {
 	// no store holds them, the event drivers build payloads from it)
 	for _, nt := range sortedNotifs(m) {
 		n := abs.SNode{SP: []string{nt.Ident()}, Kind: "notification", Keys: []string{}, Dflt: []string{}, Cases: []abs.CaseRef{}, Enums: []abs.EnumDef{}, Bases: []string{},
-			Module: meta.OriginalModule(nt).Ident(), Config: false, WhenP: abs.Cond{Path: []string{}}}
+			Module: meta.OriginalModule(nt).Ident(), Config: false, WhenP: abs.Cond{Path: []string{}}, T: abs.TypeDesc{Levels: []abs.Level{}, Members: []abs.TypeMem{}}}
 		out = append(out, n)
 		walk(nt, n.SP, n.Cases, "")
 	}
